@@ -20,6 +20,10 @@ MAX_STATE = {'AppMessageSend': 0, 'OutOfStoreSeal': 0}
 
 
 def install(I):
+    from wesym.contracts.base import mk_error as _mkerr
+    W = '(*berty.tech/weshnet/v2.WeshOrbitDB).'
+    I.contracts[W + 'OpenGroup'] = lambda I, a, ins: (None, _mkerr(I, 'orbitdb: open group (outside the encoding)'))
+    I.contracts[W + 'openAccountGroup'] = lambda I, a, ins: (None, _mkerr(I, 'orbitdb: open account group (outside the encoding)'))
     def fill(I, t, name, depth):
         u = t.under()
         if u.kind == 'basic':
@@ -174,13 +178,17 @@ def main():
     cres, cchk = cryptoutil_jobs(t)
     chk = c03.root_check('C19', ['root/zz_verif_rand.go', 'C19/zz_verif_c19.go'], extra_installers=[install, timec.install])
     P = MOD + '.'
-    names = ['VerifC19' + h for h in HANDLERS] + ['VerifC19Witness']
+    names = ['VerifC19' + h for h in HANDLERS] + ['VerifC19ActivateGroup', 'VerifC19DeactivateGroup', 'VerifC19Witness']
     chk.load([P + n for n in names])
     cfg = {'timeout_ms': 60000, 'unwind': 40}
     jobs = []
     for h in HANDLERS:
         for st in range(0, MAX_STATE.get(h, 2) + 1):
             jobs.append(Job(P + 'VerifC19' + h, (st,), cfg=cfg, max_paths=50000))
+    for st in (0, 1, 2):
+        for which in (0, 1, 2, 3):
+            jobs.append(Job(P + 'VerifC19ActivateGroup', (st, which), cfg=cfg, max_paths=50000))
+    jobs.append(Job(P + 'VerifC19DeactivateGroup', (0,), cfg=cfg, max_paths=50000))
     jobs.append(Job(P + 'VerifC19Witness', (), witness=True, cfg=cfg))
     res = chk.run_jobs(jobs) + cres
     finish(chk, res, t,
@@ -190,7 +198,7 @@ def main():
                        '(nil dereference, index/slice bounds, explicit panic, failed type assertion) on any feasible path is a violation; handlers that '
                        'need the account group must answer its absence with an error.' % len(HANDLERS),
            bounds={'handlers': HANDLERS, 'service_states': '3 (state 0 = accountGroupCtx nil, the state service.deactivateGroup leaves behind: service_group.go sets s.accountGroupCtx = nil)', 'request_depth': 2,
-                   'decode_helpers': 'cryptoutil.AESGCMDecrypt/Encrypt, AESCTRStream, KeySliceToArray, NonceSliceToArray for key lengths {0,16,31,32} x data lengths listed in the job table (free contents)', 'outside': 'handlers that need IPFS/OrbitDB/libp2p/gRPC streams (ActivateGroup, GroupMetadataList, GroupMessageList, GroupDeviceStatus, PeerList, Debug*, ServiceExportData, ReplicationServiceRegisterGroup, RefreshContactRequest, MultiMemberGroupCreate); requests after Close(); behaviour inside dependencies'},
+                   'decode_helpers': 'cryptoutil.AESGCMDecrypt/Encrypt, AESCTRStream, KeySliceToArray, NonceSliceToArray for key lengths {0,16,31,32} x data lengths listed in the job table (free contents)', 'activate_group': 'ActivateGroup for a free / known contact / known multi-member / account group id in the 3 states, up to the OrbitDB open (contract: error); DeactivateGroup with nothing open', 'outside': 'handlers that need IPFS/OrbitDB/libp2p/gRPC streams (the store opening inside ActivateGroup, closing open stores in DeactivateGroup, GroupMetadataList, GroupMessageList, GroupDeviceStatus, PeerList, Debug*, ServiceExportData, ReplicationServiceRegisterGroup, RefreshContactRequest, MultiMemberGroupCreate); requests after Close(); behaviour inside dependencies'},
            assumptions=['subsystems behind contracts return a value of their result type and do not panic', 'the VC issuer client is unreachable (returns an error)'],
            trusted=['go/ssa lowering', 'wesym interpreter + contracts', 'z3 5.1.0 (+cross-check)'])
 
